@@ -65,6 +65,13 @@ theorem eval_saInvert (env : Env) (ρ : Nat → Val) (e : Expr) :
     cases n
     · simp
     · simp [not3_not3_inSem]
+  | inq n x q =>
+    simp only [saInvert, eval]
+    cases n
+    · simp
+    · simp [not3_not3_inSem]
+  | exists_ q => simp only [saInvert, eval]
+  | scalar q => simp only [saInvert, eval]
   | null => simp only [saInvert, eval]
   | int n => simp only [saInvert, eval]
   | col i => simp only [saInvert, eval]
@@ -94,10 +101,10 @@ theorem eval_saNormE_both (env : Env) (ρ : Nat → Val) (e : Expr) (h : okE e =
     simp only [saNormE, eval, evalItems, (ihl h.1).1, (ihr h.2).1, and_self]
   | and l r ihl ihr =>
     simp only [okE, Bool.and_eq_true] at h
-    simp only [saNormE, eval, evalItems, (ihl h.1.1.1).1, (ihr h.1.1.2).1, and_self]
+    simp only [saNormE, eval, evalItems, (ihl h.1).1, (ihr h.2).1, and_self]
   | or l r ihl ihr =>
     simp only [okE, Bool.and_eq_true] at h
-    simp only [saNormE, eval, evalItems, (ihl h.1.1.1).1, (ihr h.1.1.2).1, and_self]
+    simp only [saNormE, eval, evalItems, (ihl h.1).1, (ihr h.2).1, and_self]
   | not e ih =>
     simp only [okE, Bool.and_eq_true, Bool.not_eq_true'] at h
     refine ⟨?_, ?_⟩
@@ -122,6 +129,11 @@ theorem eval_saNormE_both (env : Env) (ρ : Nat → Val) (e : Expr) (h : okE e =
   | tcons e rest ihe ihr =>
     simp only [okE, Bool.and_eq_true] at h
     simp only [saNormE, eval, evalItems, (ihe h.1).1, (ihr h.2).2, and_self]
+  | inq n x q ihx =>
+    simp only [okE] at h
+    simp only [saNormE, eval, evalItems, (ihx h).1, and_self]
+  | exists_ q => exact ⟨rfl, rfl⟩
+  | scalar q => exact ⟨rfl, rfl⟩
 
 theorem eval_saNormE (env : Env) (ρ : Nat → Val) (e : Expr) (h : okE e = true) :
     eval env ρ (saNormE e) = eval env ρ e :=
@@ -171,6 +183,7 @@ theorem sqlKind_kindText (k : JoinKind) : sqlKind (kindText k) = some k := by
 theorem fromWidth_saFrom (db : Db) (f : From) : fromWidth db (saFrom f) = fromWidth db f := by
   induction f with
   | table t => rfl
+  | sub q w => rfl
   | join l jt imp t on ih =>
     cases imp
     · simp only [saFrom, Bool.false_eq_true, if_false]
@@ -183,6 +196,7 @@ theorem evalFrom_saFrom (env : Env) (db : Db) (f : From) (h : okFrom f = true)
     (hr : raisesFrom f = false) : evalFrom env db (saFrom f) = evalFrom env db f := by
   induction f with
   | table t => rfl
+  | sub q w => rfl
   | join l jt imp t on ih =>
     simp only [okFrom, Bool.and_eq_true, Bool.or_eq_true] at h
     simp only [raisesFrom, Bool.or_eq_false_iff, Bool.and_eq_false_iff] at hr
@@ -352,6 +366,33 @@ theorem evalQuery_saRender (env : Env) (db : Db) (q : Query) (h : okQ q = true) 
   cases hr : raisesQ q with
   | true => simp
   | false => simpa using evalQuery_saNorm env db q h hr
+
+/-! ### statements with sub-queries -/
+
+theorem evalSubs_saNorm (env : Env) (db : Db) (qs : List Query) (h : qs.all okQ = true)
+    (hr : qs.any raisesQ = false) :
+    ∀ i acc, evalSubs env db (qs.map saNorm) i acc = evalSubs env db qs i acc := by
+  induction qs with
+  | nil => intro i acc; rfl
+  | cons q qs ih =>
+    intro i acc
+    simp only [List.all_cons, Bool.and_eq_true] at h
+    simp only [List.any_cons, Bool.or_eq_false_iff] at hr
+    simp only [List.map_cons, evalSubs, evalQuery_saNorm (withSub env acc) db q h.1 hr.1,
+      ih h.2 hr.2]
+
+/-- sub-queries in FROM / IN / EXISTS / as a value: what `get_string` returns for the whole
+statement means the same, for all table contents -/
+theorem evalNested_saRenderN (env : Env) (db : Db) (n : Nested) (h : okN n = true) :
+    evalNested env db (saRenderN n) = evalNested env db n := by
+  unfold saRenderN
+  cases hr : raisesN n with
+  | true => simp
+  | false =>
+    simp only [raisesN, Bool.or_eq_false_iff] at hr
+    simp only [okN, Bool.and_eq_true] at h
+    simp only [Bool.false_eq_true, if_false, evalNested, evalSubs_saNorm env db n.subs h.1 hr.1,
+      evalQuery_saNorm _ db n.main h.2 hr.2]
 
 /-! ### DML -/
 
